@@ -49,8 +49,12 @@ def va_line(ub, pos):
     return f"va {ubin_tokens(ub)} " + " ".join(f2h(x) for x in pos)
 
 
-def run_impl(kind, hc, hkl, wl):
-    """-> ('ok', [(pos tuple, va dict)]) | (error class name, message)"""
+def run_impl(kind, hc, hkl, wl, keep=None):
+    """-> ('ok', [(pos tuple, va dict)]) | (error class name, message)
+
+    What get_position hands out belongs to the caller: once the values are read off, every returned Position is moved in place through its
+    public setters and every returned dictionary is overwritten (a rocking curve, a unit conversion ...).  Nothing the calculator answers
+    later may depend on that.  `keep`, if given, collects the (edited) objects."""
     from diffcalc.util import DiffcalcException
     with quiet():
         try:
@@ -58,7 +62,21 @@ def run_impl(kind, hc, hkl, wl):
                 r = hc.get_position(*hkl, wl)
             else:
                 r = hc._HklCalculation__calc_hkl_to_position(*hkl, wl)
-            return "ok", [(tuple(float(x) for x in p.astuple), {k: float(v) for k, v in va.items()}) for p, va in r]
+            out = [(tuple(float(x) for x in p.astuple), {k: float(v) for k, v in va.items()}) for p, va in r]
+            try:
+                for i, (p, va) in enumerate(r):
+                    if hasattr(p, "astuple") and hasattr(p, "phi"):
+                        p.phi = p.phi + 0.37 + i; p.eta = p.eta - 1.21; p.delta = 0.0
+                    if isinstance(va, dict):
+                        for k in list(va):
+                            va[k] = 123.456
+                if keep is not None:
+                    keep.extend(r)
+                if isinstance(r, list):
+                    r.clear()
+            except Exception:  # noqa — read-only results are fine too
+                pass
+            return "ok", out
         except DiffcalcException as e:
             return "dce", Exception.__str__(e)[:160]
         except Exception as e:  # noqa
